@@ -147,11 +147,11 @@ def gen_plan(rng, opts, spec, faults, idx):
         elif kind == 'pywarn':
             passes[kf - 1] = {'a': 'pywarn', 'when': rng.choice(['before', 'after']), 'cat': rng.choice(['RuntimeWarning', 'UserWarning', 'FutureWarning', 'DeprecationWarning']), 'd': passes[kf - 1].get('d', [0.0] * n_endo)}
         elif kind == 'exception':
-            passes[kf - 1] = {'a': 'raise', 'exc': rng.choice(sorted(probes.EXCEPTIONS)), 'partial': rng.randint(0, n_endo)}
+            passes[kf - 1] = {'a': 'raise', 'exc': rng.choice(probes.EXCEPTION_NAMES), 'partial': rng.randint(0, n_endo)}
         elif kind == 'hook-before-exc':
-            plan['before'] = {'a': 'raise', 'exc': rng.choice(sorted(probes.EXCEPTIONS))}
+            plan['before'] = {'a': 'raise', 'exc': rng.choice(probes.EXCEPTION_NAMES)}
         elif kind == 'hook-after-exc':
-            plan['after'] = {'a': 'raise', 'exc': rng.choice(sorted(probes.EXCEPTIONS))}
+            plan['after'] = {'a': 'raise', 'exc': rng.choice(probes.EXCEPTION_NAMES)}
         elif kind == 'hook-warn':
             plan[rng.choice(['before', 'after'])] = {'a': 'pywarn', 'cat': rng.choice(['RuntimeWarning', 'UserWarning', 'FutureWarning'])}
         placed.append(kind)
@@ -219,7 +219,7 @@ def generate(rng, idx, tier, variant):
             ops.append({'op': 'add_variable', 'obj': who, 'name': f'N{len(ops)}', 'v': rng.choice(DYADS)})
         elif r < 0.55:
             ops.append({'op': 'eval', 'obj': who, 'expr': rng.choice(['{a} + 1', '{a} * {b}', '{a}[0] + nosuchname', '1 / ({a} - {a})', 'log({a} * 0)', '{a}[', 'lag({a})']), 'a': rng.choice(names), 'b': rng.choice(names), 'warnings_': rng.choice(['ignore', 'always', 'error'])})
-    return {'spec': spec, 'ops': ops}
+    return {'spec': spec, 'ops': ops, 'np_err': rng.choice(['default'] * 7 + ['ignore', 'warn', 'raise'])}
 
 
 # ---- parser-built models: contractive / divergent / oscillating systems, natural faults
@@ -289,11 +289,18 @@ def count_faults(ctx, log, opts):
                 ctx.fault('nonfinite-value')
 
 
+FINITE_ACTS = ('delta', 'set', 'half', 'npunder', 'noop', 'setx')
+
+
 def call_is_finite(call):
     n, t = call['n'], call['t']
     tn = t + n if t < 0 else t
     for r in call['log']:
-        if r.get('exc'):
+        # scripted seams: what was *planned* decides (an exception out of finite arithmetic is itself a C02 matter);
+        # real passes: what was observed
+        if r.get('exc') and not (call.get('scripted') and r.get('act') in FINITE_ACTS and call.get('np_err', 'default') == 'default'):
+            return False
+        if call.get('scripted') and r.get('act') not in FINITE_ACTS:
             return False
         if any(not np.isfinite(v) for v in r.get('post', []) + r.get('post_endo', [])):
             return False
@@ -341,6 +348,7 @@ def do_solve(m, span, spec, op, endo, check, exo, ctx, step):
         'outcome': out,
         'scripted': spec['kind'] == 'scripted',
         'feasible': True,
+        'np_err': ctx.np_err,
     }
     prop = 'C02' if call_is_finite(call) else 'C06'
     ctx.count('calls:' + prop)
@@ -382,6 +390,8 @@ def do_solve(m, span, spec, op, endo, check, exo, ctx, step):
 def execute(schedule, ctx):
     fsic = import_fsic()
     spec = schedule['spec']
+    ctx.np_err = schedule.get('np_err', 'default')
+    ctx.probe('ambient-numpy-error-state:' + ctx.np_err)
     try:
         m, span, endo, check, exo = build(fsic, spec)
     except Exception as e:
